@@ -107,6 +107,8 @@ def worker(job):
     if not h["ok"]:
         return out
     fits = [r for r in cap.records if r["op"] == "fit"]
+    # any run with a regularisation constant goes through the iterative conic solver (also when the generator happened to draw one)
+    regularised = job[1] == "regularised" or bool(p.get("model_parameters", {}).get("lambda_"))
     A = len(p["prediction_intervals"])
     base = {b["geographic_unit_fips"]: b for b in case["baseline"]}
     feed = {}
@@ -145,14 +147,14 @@ def worker(job):
             for last, res, pv in units:
                 exact = max((1 + m) * last, Fr(res))
                 near_tie = abs((exact - Fr(1, 2)) - round(exact - Fr(1, 2))) < Fr(1, 10**6)
-                slack = Fr(1) if job[1] == "regularised" else (Fr(1, 10**6) if near_tie else 0)
+                slack = Fr(1) if regularised else (Fr(1, 10**6) if near_tie else 0)
                 if abs(Fr(pv) - exact) > Fr(1, 2) + slack:
                     out["s"].append({"what": f"{e}: unit with baseline+1={last}, partial count {res} predicted {pv}, uniform swing by the weighted median {float(m)} gives {float(exact)}",
                                      "kind": "not-uniform-swing"})
                     break
         lit = llit([f"({qlit(w)}, {qlit(Fr(res - last, last))})" for last, res, w in obs])
         us = llit([f"({zlit(a)}, {zlit(b_)}, {zlit(c)})" for a, b_, c in units])
-        fn = "check_swing_approx" if job[1] == "regularised" else "check_swing"
+        fn = "check_swing_approx" if regularised else "check_swing"
         out["exprs"].append(f"{fn} {lit} {qlit(coef)} {us}")
         out["labels"].append(f"{e}")
         out["unique"] = bool(strict)
